@@ -92,7 +92,7 @@ def evaluate(run, pid, tracefile, rep, traces):
         seen.add(key)
         sl = traces.get(v["trace"], [])
         first = rep["first_line"].get(v["trace"], 0)
-        sig = {"prop": v["prop"], "ev": v["ev"], "typ": v.get("typ", ""), "call": v.get("call", ""), "layer": "plugin",
+        sig = {"prop": v["prop"], "ev": v["ev"], "typ": v.get("typ", ""), "call": v.get("call", ""), "layer": "plugin", "tag": v.get("tag", ""),
                "scenario": sl[0].get("scenario") if sl else ""}
         run.add_violation(v["prop"], "trace %d (scenario %s) line %d: %s %s %s" % (v["trace"], sig["scenario"], v["line"], v["ev"], v.get("typ", ""), v.get("call", "")),
                           {"property": pid, "predicate": v["prop"], "violating_line_in_file": v["line"], "trace": sl,
